@@ -12,7 +12,7 @@ TB = ["harness-owned components are trusted: copying store, server-side client-s
       "replayed TLC behaviours and the seeded random scenarios, not on all inputs"]
 
 
-def tiers(mc, random, consts=None, fam_consts=None, q=(150, 10, 120, 30), t=(1500, 14, 1500, 40), tconsts=None):
+def tiers(mc, random, consts=None, fam_consts=None, q=(100, 10, 100, 30), t=(1500, 14, 1500, 40), tconsts=None):
     return dict(
         quick=dict(mc=mc, random=random, consts=consts or {}, fam_consts=fam_consts or {}, sim_num=q[0], sim_depth=q[1],
                    rand_num=q[2], rand_depth=q[3]),
